@@ -92,7 +92,7 @@ Proof.
     destruct (meta_publish_all _ mps) as [r1 o1]. cbn [fst snd] in *.
     apply ev_step_app; [now apply ev_step_noev|now apply ev_step_plain].
   - (* UNREGISTER *)
-    pose proof (unregister_dk (r_dealer r) (s_id s) req reg) as [Rn _].
+    pose proof (unregister_dk (r_dealer r) (s_id s) req reg) as [Rn _ _].
     pose proof (unregister_mps_plain (r_dealer r) (s_id s) req reg) as Rp.
     destruct (unregister _ _ _ _) as [[d o] mps]. cbn [fst snd] in *.
     pose proof (meta_publish_all_plain mps (r_set_dealer r d) Rp) as Mp.
@@ -102,10 +102,10 @@ Proof.
     pose proof (call_c12 (r_cfg r) (lookup r) (r_now r) (r_dealer r) s req opts proc args kw oracle Wd
                          (meta_fixed_lookup_ok r M)) as CF.
     destruct (call _ _ _ _ _ _ _ _ _ _ _) as [d o|o|d callee' o].
-    + cbn [fst snd]. apply ev_step_noev. apply CF.
+    + cbn [fst snd]. destruct CF as [[Cn _ _] _]. apply ev_step_noev. exact Cn.
     + specialize (Lv r None S0). destruct (leave r (s_id s)) as [r1 o1]. cbn [fst snd] in *.
-      apply ev_step_app; [apply ev_step_noev; apply CF|exact Lv].
-    + destruct CF as (Cn & _ & (b & rid & det & Eo) & c0 & Hl & Hc).
+      apply ev_step_app; [apply ev_step_noev; exact (proj1 CF)|exact Lv].
+    + destruct CF as ([Cn _ _] & (b & rid & det & Eo) & c0 & Hl & Hc).
       destruct (N.eqb_spec (s_id callee') meta_id) as [Em|Em].
       * rewrite Eo, Em. unfold update_session. rewrite Em, N.eqb_refl.
         apply ev_step_meta. apply run_meta_invocation_ev.
@@ -114,10 +114,10 @@ Proof.
       * rewrite Eo. rewrite (run_meta_invocation_client _ (s_id callee') b rid det args kw oracle Em). cbn [snd].
         rewrite <- Eo. now apply ev_step_noev.
   - (* CANCEL *)
-    pose proof (cancel_dk (lookup r) (r_dealer r) (s_id s) req opts) as [D _].
+    pose proof (cancel_dk (lookup r) (r_dealer r) (s_id s) req opts) as [D _ _].
     destruct (cancel _ _ _ _ _) as [d o]. cbn [fst snd] in *. now apply ev_step_noev.
   - (* YIELD *)
-    pose proof (sync_yield_dk (lookup r) (r_dealer r) (s_id s) req opts args kw) as [D _].
+    pose proof (sync_yield_dk (lookup r) (r_dealer r) (s_id s) req opts args kw) as [D _ _].
     destruct (sync_yield _ _ _ _ _ _ _) as [d o]. cbn [fst snd] in *.
     destruct (yield_aborts _ _ _ _ _); [|now apply ev_step_noev].
     specialize (Lv (r_set_dealer r d) None (sub_st_dealer _ _ d S0)).
@@ -127,7 +127,7 @@ Proof.
     destruct (negb (ty =? c_INVOCATION)).
     + specialize (Lv r None S0). destruct (leave r (s_id s)) as [r1 o1]. cbn [fst snd] in *.
       apply ev_step_cons; [reflexivity|exact Lv].
-    + pose proof (sync_error_dk (r_dealer r) (s_id s) req details err args kw) as [D _].
+    + pose proof (sync_error_dk (r_dealer r) (s_id s) req details err args kw) as [D _ _].
       destruct (sync_error _ _ _ _ _ _ _) as [d o]. cbn [fst snd] in *. now apply ev_step_noev.
   - specialize (Lv r None S0). destruct (leave r (s_id s)) as [r1 o1]. cbn [fst snd] in *.
     apply ev_step_cons; [reflexivity|exact Lv].
@@ -167,7 +167,7 @@ Proof.
       destruct Hin as [H|[]]. discriminate H.
   - cbn [step]. intros Hin Hk. right. exact (proj1 (leave_ev r r sid (sub_st_refl r M)) _ _ _ _ _ _ Hin Hk).
   - cbn [step]. set (r1 := r_set_now r (r_now r + ms)).
-    pose proof (fire_timers_dk (lookup r1) (r_now r1) (r_dealer r1)) as [D _].
+    pose proof (fire_timers_dk (lookup r1) (r_now r1) (r_dealer r1)) as [D _ _].
     destruct (fire_timers _ _ _) as [d out]. cbn [fst snd] in *. intros Hin. specialize (D _ Hin). discriminate D.
 Qed.
 
@@ -221,7 +221,7 @@ Proof.
     destruct (call _ _ _ _ _ _ _ _ _ _ _) as [d o|o|d callee' o].
     + exact M.
     + specialize (Lv r eq_refl). destruct (leave r (s_id s)) as [r1 o1]. exact Lv.
-    + destruct CF as (_ & _ & _ & c0 & Hl & Hc).
+    + destruct CF as (_ & _ & c0 & Hl & Hc).
       eapply meta_fixed_ext; [apply run_meta_invocation_meta|].
       unfold update_session. destruct (N.eqb_spec (s_id callee') meta_id) as [Em|Em]; [|exact M].
       eapply set_invgen_fixed; eauto.
